@@ -80,6 +80,9 @@ func (fr *Frame) loopCut(b *ssa.BasicBlock, ord int, ci *cfgInfo) {
 		if len(li.clauses) > 0 {
 			fr.loopsUsed[ord] = true
 		}
+	} else if r.action != nil && fr.Fn == r.action && r.Contract != nil {
+		li.clauses = r.Contract.Loops[ord]
+		fr.C = r.Contract
 	}
 	li.riAlloc, li.riLen = rangeIndexOf(b)
 	if rng := rangeIterOf(b); rng != nil {
